@@ -43,7 +43,7 @@ func main() {
 		os.Setenv(k, v)
 	}
 	if o.Timeout == 0 {
-		o.Timeout = 10 * time.Second
+		o.Timeout = 20 * time.Second
 		if o.Tier == "thorough" {
 			o.Timeout = 60 * time.Second
 		}
